@@ -174,6 +174,12 @@ impl RepositoryEditor {
         // role cannot be loaded by any client, so refuse to sign it.
         for role in &delegated_targets {
             let (name, role) = role.clone().targets();
+            // The metadata of a delegated role is written as `<name>.json`: under the name of a
+            // top-level role it would take the place of that role's file, and clients refuse it.
+            ensure!(
+                !["root", "snapshot", "targets", "timestamp"].contains(&name.as_str()),
+                error::DelegatedRolesNotConsistentSnafu { name }
+            );
             KeyHolder::Delegations(
                 targets
                     .signed
